@@ -4,6 +4,7 @@
 mod engine_life;
 mod engine_model;
 mod engine_opts;
+mod engine_views;
 mod exec;
 mod gen;
 mod hooks;
@@ -98,6 +99,8 @@ fn main() {
         "model" => engine_model::main(&args),
         "replay" => engine_model::replay_main(&args),
         "shrink" => engine_model::shrink_main(&args),
+        "views" => engine_views::main(&args),
+        "views-replay" => engine_views::replay_main(&args),
         "opts" => engine_opts::main(&args),
         "opts-replay" => engine_opts::replay_main(&args),
         "life" => engine_life::main(&args),
